@@ -228,7 +228,10 @@ fn limit_messages() -> &'static Vec<String> {
                 let mut v = Vec::new();
                 for text in [format!("k={}{}", "[".repeat(300), "]".repeat(300)), format!("k={}1{}", "{a=".repeat(300), "}".repeat(300))] {
                     if let Err(e) = text.parse::<toml_edit::DocumentMut>() {
-                        v.push(e.message().to_string());
+                        // the cause is the last line; lines before it are context labels ("invalid table header", ...)
+                        if let Some(core) = e.message().lines().last() {
+                            v.push(core.trim().to_string());
+                        }
                     }
                 }
                 v
@@ -240,7 +243,7 @@ fn limit_messages() -> &'static Vec<String> {
 }
 
 fn is_limit_message(m: &str) -> bool {
-    m.contains("recursion limit") || limit_messages().iter().any(|x| x == m)
+    m.contains("recursion limit") || m.lines().any(|l| limit_messages().iter().any(|x| !x.is_empty() && x == l.trim()))
 }
 
 fn run_case(text: String) -> String {
